@@ -45,13 +45,13 @@ RULE = ('corpus + directed prefix (every type x {typical value, None, class leve
         '0/1/999999, date-only and datetime ranges, big ints, extreme floats, empty containers, nested tuples, non-string '
         'keys) + random classes of 1-5 parameters over all 17 types with values accepted by the real Parameter; '
         'the state, the json.loads tree, strict-JSON flag, deserialize_parameters result, rebuilt object, per-parameter '
-        'serialize_value/deserialize_value, the subset= variants (text produced with the subset, and the full text read back with the subset), one fifth of the cases reach their final declaration through serialize -> Cls.param.add_parameter (new parameters, or a String replaced by another type) -> serialize, another fifth leave parameters unset on the instance, touch its per-instance Parameter objects and then assign the class default (the instance follows it), and a second deserialization of the same text after the first result (and the object rebuilt from it) had its lists/dicts edited in place (equal to the state again, no shared container objects) are compared with the model and checked by the oracle. '
+        'serialize_value/deserialize_value, the subset= variants (one subset object — list, tuple, set, frozenset or dict — used for every call: text produced with the subset, read back with it, the full text read back with it, serialized with it a second time; the object must come back unchanged), one fifth of the cases reach their final declaration through serialize -> Cls.param.add_parameter (new parameters, or a String replaced by another type) -> serialize, another fifth leave parameters unset on the instance, touch its per-instance Parameter objects and then assign the class default (the instance follows it), and a second deserialization of the same text after the first result (and the object rebuilt from it) had its lists/dicts edited in place (equal to the state again, no shared container objects) are compared with the model and checked by the oracle. '
         'non-trivial = oracle applicable and at least one non-name parameter with a non-None value; distinct = distinct canonical case')
 COVERAGE_TARGETS = [f'{t}:value' for t in G.TYPES15 if t not in ('DateRange', 'CalendarDateRange')] + \
                    [f'{t}:none' for t in ('Number', 'String', 'Boolean', 'Tuple', 'Range', 'Date', 'CalendarDate',
                                           'DateRange', 'CalendarDateRange', 'Selector', 'ListSelector', 'Color')] + \
                    ['DateRange:dates', 'DateRange:datetimes', 'CalendarDateRange:dates', 'year<1000',
-                    'non-native-element', 'non-finite', 'level:class', 'level:instance', 'subset', 'history:add_parameter', 'history:class-default-after-instance']
+                    'non-native-element', 'non-finite', 'level:class', 'level:instance', 'subset', 'subset-kind:list', 'subset-kind:set', 'subset-kind:tuple', 'subset-kind:frozenset', 'subset-kind:dict', 'history:add_parameter', 'history:class-default-after-instance']
 
 
 def _vals(obj, names):
@@ -102,7 +102,10 @@ def run_impl(case):
             return {'invalid': True}
         types = {d['name']: d['type'] for d in case['params']}
         out = {'invalid': False, 'state': _vals(obj, names)}
-        subset = case.get('subset')
+        # one subset object of the kind the case names, handed to every call (an argument may be any
+        # container of names and must come back unchanged)
+        names_in_subset = case.get('subset')
+        subset = G.make_subset(names_in_subset, case.get('subset_kind'))
 
         def roundtrip(sub, keep=None):
             text = [None]
@@ -175,6 +178,8 @@ def run_impl(case):
         again['per_value'] = pv2
         out['again'] = again
         out['sub_ser'], _, out['sub_deser'], _ = roundtrip(subset)
+        out['sub_ser2'] = _res(lambda: G.enc_fields(json.loads(obj.param.serialize_parameters(subset=subset)), types))
+        out['subset_intact'] = subset is None or sorted(subset) == sorted(names_in_subset)
         # the full text read back with the narrower subset
         if text_all[0] is None:
             out['narrow_deser'] = {'err': 'noser'}
@@ -262,6 +267,9 @@ def directed():
     yield single({'type': 'Date'}, _dt(2020, 5, 6, 7, 8, 9, 123456), subset=['p0'])
     yield single({'type': 'Tuple'}, enc_val((1, 2)), subset=['name'])
     yield single({'type': 'Tuple'}, enc_val((1, 2)), subset=[])
+    for kind in G.SUBSET_KINDS:
+        yield dict(single({'type': 'Date'}, _dt(2020, 5, 6, 7, 8, 9, 123456), subset=['p0']), subset_kind=kind)
+        yield dict(single({'type': 'Tuple'}, enc_val((1, 2)), subset=['name', 'p0'], level='class'), subset_kind=kind)
     # several parameters at once, each of the codecs with a hook
     ps = [G.name_param()]
     vals = [enc_val('obj')]
@@ -314,6 +322,7 @@ def tags(case, impl):
     t = ['level:' + case['level'], f'nparams={len(case["params"]) - 1}']
     if case.get('subset') is not None:
         t.append('subset')
+        t.append('subset-kind:' + (case.get('subset_kind') or 'list'))
     if case.get('added') or case.get('replaced'):
         t.append('history:add_parameter')
     if case.get('unset'):
